@@ -271,8 +271,8 @@ func runTsdb(e *childEnv) {
 		return
 	}
 	// one database per interval type (the shard's writable interval decides the segment type).
-	sets := [][3]int64{{10 * msSecond, 5 * msMinute, msHour}, {msMinute, 30 * msMinute, msDay}}
-	set := sets[e.shard%len(sets)]
+	sets := [][3]int64{{10 * msSecond, 5 * msMinute, msHour}, {msMinute, 30 * msMinute, msDay}, {30 * msSecond, 10 * msMinute, 6 * msHour}}
+	set := sets[(e.shard+int(e.seed))%len(sets)]
 	var dbs []*tsdbDB
 	for i, typ := range allTypes {
 		d := &tsdbDB{name: "c13" + typ, interval: set[i], typ: typ, created: map[int64]bucket{}, fams: map[int64]tsdb.DataFamily{}}
@@ -284,7 +284,7 @@ func runTsdb(e *childEnv) {
 		dbs = append(dbs, d)
 	}
 	rnd := e.rand("tsdb-touch")
-	hot := cal.calendarHotspots(rnd, e.pick(20, 120))
+	hot := cal.calendarHotspots(rnd, e.pick(20, 200))
 	if e.quick {
 		// a deterministic subset keeps the number of kv stores (one per day segment) small
 		var sub []int64
